@@ -750,10 +750,22 @@ fn lspconv(req: &J) -> J {
             out.push(json!([o, l, c, back]));
         }
         let whole = crate::lsp::verif_whole_document_range(src);
-        (out, whole)
+        // Optional: arbitrary (line, character) positions to convert
+        // to offsets, including positions outside the document.
+        let mut probed = vec![];
+        if let Some(ps) = req.get("probe").and_then(|p| p.as_array()) {
+            for p in ps {
+                let l = p.get(0).and_then(|v| v.as_u64()).unwrap_or(0) as usize;
+                let c = p.get(1).and_then(|v| v.as_u64()).unwrap_or(0) as usize;
+                probed.push(crate::lsp::verif_line_char_to_offset(src, l, c));
+            }
+        }
+        (out, whole, probed)
     });
     match r {
-        Ok((out, whole)) => json!({"conv": out, "whole": [whole.0, whole.1, whole.2, whole.3]}),
+        Ok((out, whole, probed)) => {
+            json!({"conv": out, "whole": [whole.0, whole.1, whole.2, whole.3], "probe": probed})
+        }
         Err(p) => json!({"panic": p}),
     }
 }
